@@ -55,20 +55,22 @@ def readTransport (g : Mem) (pl : IpPl) : Except PErr (Option TpR × Pay) :=
       | .ok hl => .ok (some (.tcp ⟨o, l⟩ hl), .tcp ⟨o + hl, l - hl⟩ false)
     else .ok (none, .ip pl)
 
+/-- the IP branch of `phNet`: IP headers, then `read_transport` -/
+def phIpPart (g : Mem) (o0 o : Nat) (r : Packet) (ipr : Except PErr IpR) : Except PErr Headers :=
+  match ipr with
+  | .error e => .error (lenAddOff (o - o0) e)
+  | .ok ip =>
+    match readTransport g ip.pl with
+    | .error e => .error (lenAddOff (ip.pl.w.o - o0) e)
+    | .ok (tp, pay') =>
+      .ok { p := { link := r.link, exts := r.exts, net := some (.ip ip), tp := tp, stop := none },
+            pay := pay' }
+
 /-- the part of `PacketHeaders::from_ether_type` behind the link-extension loop. `o0` = start of the
     slice given to from_ether_type (error offsets are pointer differences to it). -/
 def phNet (g : Mem) (o0 : Nat) (et o l : Nat) (r : Packet) (pay : Pay) : Except PErr Headers :=
-  let ipPart (ipr : Except PErr IpR) : Except PErr Headers :=
-    match ipr with
-    | .error e => .error (lenAddOff (o - o0) e)
-    | .ok ip =>
-      match readTransport g ip.pl with
-      | .error e => .error (lenAddOff (ip.pl.w.o - o0) e)
-      | .ok (tp, pay') =>
-        .ok { p := { link := r.link, exts := r.exts, net := some (.ip ip), tp := tp, stop := none },
-              pay := pay' }
-  if et = 0x0800 then ipPart (ipHeadersFromIpv4Slice g o l)
-  else if et = 0x86dd then ipPart (ipHeadersFromIpv6Slice g o l)
+  if et = 0x0800 then phIpPart g o0 o r (ipHeadersFromIpv4Slice g o l)
+  else if et = 0x86dd then phIpPart g o0 o r (ipHeadersFromIpv6Slice g o l)
   else if et = 0x0806 then
     match arpFromSlice g o l with
     | .error e => .error (.len (e.addOffset (o - o0)))
